@@ -3,7 +3,7 @@
    [wf_files fs = true] is the invariant of a shard directory: file names (TSM and tombstone)
    distinct and in FileStore order, tombstones only where a tombstone file exists.  It is
    executable and re-checked on every observed source state by Run.v. *)
-From Verif Require Import C18.Model C18.Names C18.Proofs C18.ProofsCopy C18.ProofsExport C18.ProofsImport C18.ProofsIncr C18.Spec C18.Run C18.ProofsLink.
+From Verif Require Import C18.Model C18.Names C18.Proofs C18.ProofsCopy C18.ProofsExport C18.ProofsImport C18.ProofsIncr C18.ProofsSeq C18.Spec C18.Run C18.ProofsLink.
 From VerifGen Require Import Consts.
 Open Scope Z_scope.
 
@@ -145,6 +145,32 @@ Theorem incremental_restore_eq_partial :
 Proof. exact incremental_restore_lemma. Qed.
 Print Assumptions incremental_restore_eq_partial.
 
+(* Sequences of copy-shard attempts to the SAME destination.  [copy_inv dst fs0]: the destination
+   does not exist / was only created ([fs0] = []), or holds, as a map from names to contents,
+   an exact older copy of the file list [fs0], with an empty cache.  For EVERY list of attempts —
+   each with its own source state, member sizes and fault record (dial failure, source without
+   the shard, cut after any number of bytes, source error before any member, CreateShard
+   failure, lost response, or none) — such that every attempt's source directory is well formed
+   and the source keeps its files from the earlier copy and from one attempt to every later one
+   ([keeps]/[grows]: no compaction removed a file): after every attempt that is NOT acknowledged
+   the owner list is unchanged, and after every ACKNOWLEDGED attempt the node is an owner and
+   the destination shard reads exactly like the source did at that attempt — in particular a
+   retry after a failure that left an empty shard behind, and a copy over an older copy. *)
+Theorem copy_attempts_sound :
+  forall base node atts dst fs0 owners,
+  copy_inv dst fs0 ->
+  (forall a, In a atts -> attempt_wf base a /\ keeps fs0 (at_files a)) ->
+  grows atts ->
+  attempts_ok base node atts dst owners.
+Proof. exact copy_attempts_lemma. Qed.
+Print Assumptions copy_attempts_sound.
+
+Theorem copy_attempts_to_fresh_destination_sound :
+  forall base node atts owners,
+  (forall a, In a atts -> attempt_wf base a) -> grows atts -> attempts_ok base node atts None owners.
+Proof. exact copy_attempts_fresh. Qed.
+Print Assumptions copy_attempts_to_fresh_destination_sound.
+
 (* ---- the model satisfies the executable spec (C18/Spec.v, as evaluated by Run.v) for all inputs ---- *)
 
 Theorem model_satisfies_spec_full :
@@ -276,4 +302,20 @@ Proof.
   - intros f [<-|[]]. right. exists ex_old. repeat split. left. reflexivity.
   - intros f [<-|[]] _. left. reflexivity.
   - intros f0 [<-|[]]. exists ex_new. repeat split. left. reflexivity.
+Qed.
+
+(* a cut first attempt leaves an empty shard behind; the retry is acknowledged and exact *)
+Definition ex_attempts : list attempt :=
+  [mk_attempt (mk_faults false false SnapIdle (Some 700) None false false) [50]%N 0 [100; 200] ex_shard;
+   mk_attempt no_faults [50]%N 0 [100; 200; 300] ex_shard].
+
+Example copy_attempts_nonvacuous :
+  (forall a, In a ex_attempts -> wf_files (at_files a) = true) /\
+  map (fun a => length (walk [100]%N (at_files a))) ex_attempts = [3%nat; 3%nat] /\
+  let r1 := copy_shard (at_ft (hd (mk_attempt no_faults [] 0 [] ex_shard) ex_attempts)) [50]%N 0 [100]%N [100; 200; 300] ex_shard None 3%N [1]%N in
+  cr_rpc_ok r1 = false /\ cr_dst r1 = Some empty_dshard /\
+  cr_rpc_ok (copy_shard no_faults [50]%N 0 [100]%N [100; 200; 300] ex_shard (cr_dst r1) 3%N [1]%N) = true.
+Proof.
+  split; [intros a [<-|[<-|[]]]; vm_compute; reflexivity|]. split; [vm_compute; reflexivity|].
+  cbn zeta. repeat split; vm_compute; reflexivity.
 Qed.
